@@ -25,24 +25,32 @@ MANIFEST = {
             "the area bound |area| <= d*raster*(max_grad+1e-8) behind `shortest_conceivable`), hence no two-ramp gradient within "
             "99% of the limits (nor within the code's +1e-8 limits from the lower search bound upwards) has fewer raster steps; "
             "the algorithm BEFORE repair 7df2246 (model function eta_old) is refuted by a vm_compute witness (18 steps returned, "
-            "8+8 exists). Safety factors (0.99), tolerances (1e-8), eps and the shape of every transcribed expression are re-read "
+            "8+8 exists). The raster-sampled form (convert_to_arbitrary=True, model eta_arb: points_to_waveform + "
+            "make_arbitrary_grad + first/last assignment) has first = grad_start, last = grad_end, one sample per raster step at "
+            "the raster centres equal to the corner list evaluated there, and the sum of its samples times the raster EQUALS the "
+            "requested area. TOTAL CORRECTNESS (eta_total): for in-domain inputs, systems whose limits exceed ~1e-6 and fuel "
+            "covering log2 of the computable bound d_feasible, every duration >= d_feasible has a solution, the doubling loop and "
+            "the binary search end on a solution and the construction passes every check: a gradient IS returned. "
+            "Safety factors (0.99), tolerances (1e-8), eps and the shape of every transcribed expression are re-read "
             "from the source on every run. On the implementation every generated case (random systems, rasters 2.5/4/5/6.4/10/"
             "12.5/20 us, both signs, limit / equal / opposite / zero ends, areas from 0 to many times the one-ramp area, dead-zone "
             "neighbourhoods, a directed family of inputs on which doubling+bisection over the two-ramp feasibility predicate is "
             "fooled, one-raster-step ramps) is checked with exact Fractions: end points, raster, area to 1e-8, limits, and a "
-            "brute-force search of ALL shorter two-ramp gradients; the extracted model is compared on the returned duration, "
+            "brute-force search of ALL shorter two-ramp gradients; the convert_to_arbitrary=True form of the same call is checked "
+            "too (first/last, samples = corner list at the raster centres, area, limits, duration); the extracted model is compared on the returned duration, "
             "validity class, selection cost, and on `_find_solution` (captured closure) for the probed and random durations.",
     'note': "Trusted: Coq kernel; translator patterns for make_extended_trapezoid_area.py / make_extended_trapezoid.py; extraction "
             "(ExtrOcamlBasic) + driver; binary64/NumPy arithmetic is outside the model (decisions that differ only because a value "
             "sits within 1e-9 of a threshold or a rounding tie are counted as benign divergences when the implementation's own "
-            "output satisfies the oracle and the divergence is explained by a per-duration difference). Termination of the "
-            "doubling loop is not proved (explicit fuel; OutOfFuel is excluded by the form `eta = OK o -> ...` of the theorems). "
+            "output satisfies the oracle and the divergence is explained by a per-duration difference). Termination is "
+            "proved for the model with explicit fuel >= log2(d_feasible) (eta_total); totality of the arbitrary form is not proved "
+            "separately (its theorems have the form `eta_arb = OK o -> ...`). "
             "The minimality theorem needs |grad_start|, |grad_end| <= 0.99 max_grad + 1e-8 (the property's domain) for the "
             "area bound of the rescan.",
     'technique': 'Rocq/Coq proof over a Gallina model (field/lra for the area equation and the area bound, induction over the '
                  'searches) + extraction-based correspondence + exhaustive exact-rational minimality oracle + directed generation',
 }
-BUDGET = {'quick': 75, 'thorough': 1500}
+BUDGET = {'quick': 62, 'thorough': 1500}
 MISMATCH_BUDGET = 0.0
 ESCALATE_BUDGET = 150     # s, thorough-size correspondence after an edit of the transcribed source
 SEARCH_BUDGET = 150
@@ -62,7 +70,8 @@ TRUSTED = ['binary64 arithmetic of NumPy/Python (products, ceil, round, comparis
 ASSUMPTIONS = ['generated cases keep every ceil() argument of the ramp-time computation at least 1e-9 away from an integer '
                '(or exactly 0), so the rastered ramp counts agree between binary64 and exact arithmetic',
                'theorem eta_minimal assumes |grad_start|, |grad_end| <= 0.99 max_grad + 1e-8 (the domain of the property) and '
-               'max_slew > 0; termination of the doubling loop is not proved (fuel)']
+               'max_slew > 0; eta_total assumes in_domain, sys_ok (the 1e-8 tolerances fit between 99% and 100% of the limits) '
+               'and fuel >= log2 of d_feasible']
 
 FUEL_D, FUEL_B = 12, 200      # doubling fuel 12: up to 4096 x the ramp-to-zero duration (the generator stays far below)
 MAX_FIND_D = 6000            # longest duration handed to the model's find_solution
@@ -446,7 +455,7 @@ def in_domain(c):
 
 # ------------------------------------------------------------------------------------------------
 # implementation driver
-def impl_run(c, want_closure=True):
+def impl_run(c, want_closure=True, arbitrary=False):
     """-> dict(cls, tt, wave, area, probes=[(d, result)], closure)"""
     import pypulseq as pp
     from pypulseq.make_extended_trapezoid_area import make_extended_trapezoid_area
@@ -474,7 +483,9 @@ def impl_run(c, want_closure=True):
     sys.setprofile(prof if want_closure else None)
     try:
         g, tt, w = make_extended_trapezoid_area(area=float(A), channel='x', grad_start=float(gs), grad_end=float(ge),
-                                                system=system)
+                                                system=system, convert_to_arbitrary=arbitrary)
+        if arbitrary:
+            res['shape_dur'] = float(g.shape_dur)
         res.update(cls='OK', tt=[float(v) for v in tt], wave=[float(v) for v in w], area=float(g.area),
                    first=float(g.first), last=float(g.last), g_tt=[float(v) for v in g.tt],
                    g_wave=[float(v) for v in g.waveform], delay=float(g.delay))
@@ -740,6 +751,96 @@ def compare_run(ctx, c, res, mres, oracle_ok, D):
 
 
 # ------------------------------------------------------------------------------------------------
+# convert_to_arbitrary=True: the raster-sampled form of the same gradient
+def pwl_eval(ft, fw, x):
+    """exact value at x of the polyline through (ft[i], fw[i]) (x inside the support)"""
+    for i in range(len(ft) - 1):
+        if ft[i] <= x <= ft[i + 1]:
+            return fw[i] + (fw[i + 1] - fw[i]) * (x - ft[i]) / (ft[i + 1] - ft[i])
+    raise ValueError('outside the support')
+
+
+def oracle_arb(ctx, c, res, ares, D, record=True):
+    """the property's predicate on make_extended_trapezoid_area(..., convert_to_arbitrary=True): starts at grad_start, ends at
+    grad_end (first / last of the sampled event), samples on the raster (centres), sample values = the corner list of the
+    irregular form rendered at the raster centres, enclosed area to 1e-8, system limits, same duration"""
+    MG, MS, R, gs, ge, A = case_vals(c)
+    fgs, fge, fA, fR = Fr(float(gs)), Fr(float(ge)), Fr(float(A)), Fr(float(R))
+
+    def bad(sig, detail):
+        if record:
+            ctx.fail('C12/arb-' + sig, c, detail)
+        return False
+    if ares['cls'] != 'OK':
+        return bad('raises', {'class': ares['cls'], 'msg': ares.get('msg')})
+    w, tt = ares['wave'], ares['tt']
+    etol = Fr(1, 10 ** 9) * max(1, abs(fgs), abs(fge))        # binary64 noise only
+    if abs(Fr(ares['first']) - fgs) > etol or abs(Fr(ares['last']) - fge) > etol:
+        return bad('endpoints', {'first': ares['first'], 'last': ares['last'], 'grad_start': float(gs), 'grad_end': float(ge)})
+    if len(w) != D or len(tt) != D:
+        return bad('duration', {'samples': len(w), 'rasters_of_corner_form': D})
+    if abs(Fr(ares['shape_dur']) - D * fR) > fR * Fr(1, 10 ** 6):
+        return bad('duration', {'shape_dur': ares['shape_dur'], 'rasters_of_corner_form': D})
+    ft = [Fr(v) for v in res['tt']]
+    fw = [Fr(v) for v in res['wave']]
+    scale = max([1] + [abs(v) for v in fw])
+    tol = Fr(1, 10 ** 9) * scale
+    for k in range(D):
+        centre = (k + Fr(1, 2)) * fR
+        if abs(Fr(tt[k]) - centre) > fR * Fr(1, 10 ** 6):
+            return bad('off-raster', {'k': k, 't': tt[k], 'raster': float(R)})
+        want = pwl_eval(ft, fw, min(max(centre, ft[0]), ft[-1]))
+        if abs(Fr(w[k]) - want) > tol:
+            return bad('sample', {'k': k, 'sample': w[k], 'corner_list_value': float(want)})
+    slack = Fr(1, 10 ** 12) * max(1, abs(fA))
+    area = sum(Fr(v) for v in w) * fR
+    if abs(area - fA) > Fr(1, 10 ** 8) + slack or abs(Fr(ares['area']) - fA) > Fr(1, 10 ** 8) + slack:
+        return bad('area', {'area_of_samples': float(area), 'grad.area': ares['area'], 'requested': float(A)})
+    tolr = 1 + Fr(1, 10 ** 9)
+    for k in range(D):
+        if abs(Fr(w[k])) > MG * tolr:
+            return bad('max-grad', {'k': k, 'sample': w[k]})
+        if k and abs(Fr(w[k]) - Fr(w[k - 1])) / fR > MS * tolr:
+            return bad('max-slew', {'k': k, 'slew': float(abs(Fr(w[k]) - Fr(w[k - 1])) / fR)})
+    return True
+
+
+def compare_arb(ctx, c, ares, D):
+    """extracted eta_arb against the implementation: class, duration, first / last, every sample, area"""
+    t = Toks(ctx.model(['eta.arb %s %d %d' % (args_tok(c), FUEL_D, FUEL_B)])[0])
+    tag = t.next()
+    if tag != 'OK':
+        mcls = t.next()
+        if ares['cls'] != mcls:
+            ctx.mismatch('arb', c, {'impl_class': ares['cls'], 'model_class': mcls})
+        return
+    md, mfirst, mlast, marea, mdur = t.z(), t.q(), t.q(), t.q(), t.q()
+    mw = t.list(t.q)
+    if ares['cls'] != 'OK':
+        ctx.mismatch('arb', c, {'impl_class': ares['cls'], 'model_class': 'OK', 'impl_msg': ares.get('msg')})
+        return
+    if D is not None and md != D:
+        return          # a duration divergence is already judged by compare_run
+    bad = None
+    scale = max([Fr(1)] + [abs(v) for v in mw])
+    if len(mw) != len(ares['wave']):
+        bad = {'samples_model': len(mw), 'samples_impl': len(ares['wave'])}
+    elif abs(mfirst - Fr(ares['first'])) > Fr(1, 10 ** 9) * scale or abs(mlast - Fr(ares['last'])) > Fr(1, 10 ** 9) * scale:
+        bad = {'first_model': float(mfirst), 'first_impl': ares['first'], 'last_model': float(mlast), 'last_impl': ares['last']}
+    elif abs(marea - Fr(ares['area'])) > Fr(1, 10 ** 9) * max(1, abs(marea)) + Fr(1, 10 ** 12):
+        bad = {'area_model': float(marea), 'area_impl': ares['area']}
+    else:
+        for k, (x, y) in enumerate(zip(mw, ares['wave'])):
+            # the tie-broken triple may differ between model and implementation at equal cost: compare only if the corner
+            # amplitudes agree (first sample determines the first slope)
+            if abs(x - Fr(y)) > Fr(1, 10 ** 9) * scale:
+                bad = {'k': k, 'sample_model': float(x), 'sample_impl': y}
+                break
+    if bad:
+        ctx.mismatch('arb', c, bad)
+
+
+# ------------------------------------------------------------------------------------------------
 def three_segment_shorter(c, D):
     """informational (NOT part of the property): is there a shorter ramp-flat-ramp gradient?  small D only"""
     MG, MS, R, gs, ge, A = case_vals(c)
@@ -753,6 +854,12 @@ def three_segment_shorter(c, D):
                 if abs(ga) <= mg and abs(ga - gs) <= ms * ru * R and abs(ga - ge) <= ms * rd * R:
                     return True
     return False
+
+
+def res_ramps(res, R):
+    """(first ramp, last ramp) of a returned corner form, in raster steps"""
+    ks = [round(Fr(t) / Fr(float(R))) for t in res['tt']]
+    return ks[1] - ks[0], ks[-1] - ks[-2]
 
 
 def process(ctx, c, rng, n_find):
@@ -785,6 +892,14 @@ def process(ctx, c, rng, n_find):
         if dom and ok and Di <= 14 and rng.random() < 0.3:
             ctx.count('info.shorter_three_segment_%s' % ('exists' if three_segment_shorter(c, Di) else 'none'))
     ctx.evaluated(('c12', c['MG'], c['MS'], c['R'], c['gs'], c['ge'], c['A']), nontrivial=nontrivial)
+    # the raster-sampled form (convert_to_arbitrary=True) of the same call
+    do_arb = dom and ok and res['cls'] == 'OK' and D <= 400 and \
+        (c['kind'] in ('onestep', 'corpus') or min(res_ramps(res, R)) == 1 or rng.random() < 0.2)
+    ares = None
+    if do_arb:
+        ares = impl_run(c, want_closure=False, arbitrary=True)
+        ctx.count('arb.' + ('one_step_ramp' if min(res_ramps(res, R)) == 1 else 'longer_ramps'))
+        oracle_arb(ctx, c, res, ares, D)
     if not ctx.model_available:
         return res, ok
     if res['cls'] == 'TimeoutError':
@@ -792,6 +907,14 @@ def process(ctx, c, rng, n_find):
         return res, ok
     mres = parse_run(ctx.model([model_run_line(c)])[0])
     same = compare_run(ctx, c, res, mres, ok, D)
+    if ares is not None and same and ((D <= 120 and min(res_ramps(res, R)) == 1) or (D <= 60 and rng.random() < 0.15)):
+        # tie-broken triples can differ at equal cost; the sample comparison is meaningful when the corner forms agree
+        if mres.get('cls') == 'OK' and abs(mres['amp'] - Fr(res['wave'][1])) <= Fr(1, 10 ** 9) * max(1, abs(mres['amp'])) \
+                and mres['up'] == res_ramps(res, R)[0]:
+            compare_arb(ctx, c, ares, D)
+            ctx.count('arb.model_compared')
+        else:
+            ctx.count('arb.model_skipped_other_tie_break')
     if mres.get('cls') == 'OK' and mres['D'] > mres['lin_max'] and \
             (ctx.tier == 'thorough' or c['kind'] in ('cross', 'scan-cross', 'fooled', 'corpus', 'shape', 'onestep')):
         # evidence that the generator reaches dead spaces ABOVE the linear range: the search without the rescan
